@@ -206,7 +206,7 @@ def build_tables(tier: str, seed: int, families=("ref", "opt"), log=lambda *a: N
         n = size(f)
         big = d >= 6
         unary_cap = 5000 if quick else 70000
-        binary_cap = (30 if lite else 50) if quick else 260   # all pairs when |F| <= cap
+        binary_cap = (30 if lite else 50) if quick else 130   # all pairs when |F| <= cap
         el_un = toy.elems(p, d) if n <= unary_cap else special_elems(f, rng, 60 if quick else 400)
         ex_un = n <= unary_cap
         if n <= binary_cap:
